@@ -25,7 +25,10 @@ def _reqs_normalised(d):
 
 def _extension():
     """An extension with symbolic leaves: descriptions, misc values, bounds, binary flag, from-params indices."""
-    e = ext.Extension("my.ext", ext.Version(1, 2, 3), runtime_reqs={"prelude", "other.ext"} if sym.concretize(sym.bool("has_reqs")) else set())
+    has_reqs = sym.concretize(sym.bool("has_reqs"))
+    # (version shape tied to the same choice bit: a plain X.Y.Z, or one with pre-release and build parts)
+    ver = ext.Version(1, 0, 0, prerelease="rc.1", build="build.7") if has_reqs else ext.Version(1, 2, 3)
+    e = ext.Extension("my.ext", ver, runtime_reqs={"prelude", "other.ext"} if has_reqs else set())
     nt = sym.concretize(sym.int("n_types", 0, P(1, 2)))
     tds = []
     for i in range(nt):
@@ -75,7 +78,8 @@ def extension_roundtrip():
     if not sym.symbolic():
         s = ext_s.Extension.model_validate_json(e.to_json())
     e2 = s.deserialize()
-    sym.check("name_version_requirements", e2.name == e.name and e2.version == e.version and set(e2.runtime_reqs) == set(e.runtime_reqs))
+    sym.check("name_version_requirements", e2.name == e.name and e2.version == e.version and str(e2.version) == str(e.version)
+              and set(e2.runtime_reqs) == set(e.runtime_reqs))
     ok = sorted(e2.types) == sorted(e.types)
     if ok:
         for k, t in e.types.items():
@@ -95,6 +99,11 @@ def extension_roundtrip():
             ok = ok and e2.values[k].name == v.name and e2.values[k].val == v.val
     sym.check("values_preserved", ok)
     sym.check("reserializes_to_same_document", deep_eq(_reqs_normalised(dump(e2._to_serial())), _reqs_normalised(dump(e._to_serial()))))
+    # definitions added AFTER an extension has been serialised once are part of the next serialisation
+    e.add_extension_value(ext.ExtensionValue("late", val.FALSE))
+    e.add_type_def(ext.TypeDef("LateT", "late", [], ext.ExplicitBound(TypeBound.Copyable)))
+    d_late = dump(e._to_serial())
+    sym.check("later_definitions_are_serialised", "late" in d_late["values"] and "LateT" in d_late["types"])
     for k, o2 in e2.operations.items():
         if o2.signature.poly_func is not None:
             sym.check("decoded_op_def_requires_its_extension", e2.name in o2.signature.poly_func.body.runtime_reqs)
